@@ -128,6 +128,10 @@ def acceptable_outcomes(op: str, args: list):
     """for the two verifiers where several rejection reasons can apply at once: the set of outcome classes the properties allow for
     these arguments (None = no opinion).  Used to tell a harmless re-ordering of independent checks from a real disagreement."""
     from . import proto
+    if op == "gpg":
+        # the GPG signing path: no property speaks about *which* error a malformed request gets (C13 is about validators and verifiers), and its
+        # argument checks are independent of each other; every rejection is as good as any other
+        return {"E ArgError", "E AttributeError", "E ImportError", "E OSError", "E KeyError"}
     try:
         if any(isinstance(a, (proto.Opaque, proto.KeyObj, bytes, bytearray, tuple)) for a in args):
             return None
